@@ -232,6 +232,10 @@ theorem C11_invocations_run_outside_the_table_lock :
 theorem C11_results_pass_through_utils_call :
     Skeleton.current.ucResultsUntouched = true := by decide
 
+/-- `C11_args_converted` is about a wrapper that applies `convertValue` to EVERY element of the decoded list, and the table holds that wrapper itself (checked against the regenerated skeleton). -/
+theorem C11_every_argument_is_converted :
+    Skeleton.current.clConvertsEveryArg = true ∧ Skeleton.current.clStoresCreatedClosure = true := by decide
+
 end Panrpc.Cv
 
 #print axioms Panrpc.Cv.C11_invocations_run_outside_the_table_lock
@@ -253,3 +257,4 @@ end Panrpc.Cv
 #print axioms Panrpc.Cv.C11_wrapper_total
 #print axioms Panrpc.Cv.C11_proxy_matches_source
 #print axioms Panrpc.Cv.C11_results_pass_through_utils_call
+#print axioms Panrpc.Cv.C11_every_argument_is_converted
